@@ -98,6 +98,15 @@ type (
 	route struct {
 		code int
 		path *MuxPath
+		// ipFilters are the filters the search consulted before it reached
+		// this result, a cache hit must consult them again.
+		ipFilters []*ipfilter.IPFilter
+	}
+
+	// routeCacheKey is a struct because a concatenation of its fields is
+	// ambiguous, e.g. "a"+"bGET" and "ab"+"GET".
+	routeCacheKey struct {
+		host, method, path string
 	}
 )
 
@@ -146,7 +155,7 @@ func allowIP(ipFilter *ipfilter.IPFilter, ip string) bool {
 
 func (mi *muxInstance) getRouteFromCache(req *httpprot.Request) *route {
 	if mi.cache != nil {
-		key := stringtool.Cat(req.Host(), req.Method(), req.Path())
+		key := routeCacheKey{req.Host(), req.Method(), req.Path()}
 		if value, ok := mi.cache.Get(key); ok {
 			return value.(*route)
 		}
@@ -156,7 +165,7 @@ func (mi *muxInstance) getRouteFromCache(req *httpprot.Request) *route {
 
 func (mi *muxInstance) putRouteToCache(req *httpprot.Request, r *route) {
 	if mi.cache != nil {
-		key := stringtool.Cat(req.Host(), req.Method(), req.Path())
+		key := routeCacheKey{req.Host(), req.Method(), req.Path()}
 		mi.cache.Add(key, r)
 	}
 }
@@ -534,24 +543,30 @@ func (mi *muxInstance) search(req *httpprot.Request) *route {
 
 	ip := req.RealIP()
 
-	// The key of the cache is req.Host + req.Method + req.URL.Path,
-	// and if a path is cached, we are sure it does not contain any
-	// headers.
+	// The key of the cache is (req.Host, req.Method, req.URL.Path), and a
+	// result is only cached if it does not depend on the headers of the
+	// request. It still depends on the client IP, so the IP filters which
+	// were consulted on the way to the result are checked again.
 	r := mi.getRouteFromCache(req)
 	if r != nil {
-		if r.code != 0 {
-			return r
+		for _, f := range r.ipFilters {
+			if !f.Allow(ip) {
+				return forbidden
+			}
 		}
-		if r.path.ipFilterChain == nil {
-			return r
-		}
-		if r.path.ipFilterChain.Allow(ip) {
-			return r
-		}
-		return forbidden
+		return r
 	}
 
-	if !allowIP(mi.ipFilter, ip) {
+	// consulted collects the non-nil IP filters in the order they are checked.
+	var consulted []*ipfilter.IPFilter
+	allow := func(f *ipfilter.IPFilter) bool {
+		if f != nil {
+			consulted = append(consulted, f)
+		}
+		return allowIP(f, ip)
+	}
+
+	if !allow(mi.ipFilter) {
 		return forbidden
 	}
 
@@ -560,7 +575,7 @@ func (mi *muxInstance) search(req *httpprot.Request) *route {
 			continue
 		}
 
-		if !allowIP(host.ipFilter, ip) {
+		if !allow(host.ipFilter) {
 			return forbidden
 		}
 
@@ -574,20 +589,26 @@ func (mi *muxInstance) search(req *httpprot.Request) *route {
 				continue
 			}
 
-			// The path can be put into the cache if it has no headers.
-			if len(path.headers) == 0 {
-				r = &route{code: 0, path: path}
-				mi.putRouteToCache(req, r)
-			} else if !path.matchHeaders(req) {
+			if len(path.headers) > 0 && !path.matchHeaders(req) {
 				headerMismatch = true
 				continue
 			}
 
-			if !allowIP(path.ipFilter, ip) {
+			allowed := allow(path.ipFilter)
+
+			// The path can be put into the cache if it has no headers and no
+			// path with headers was skipped before it: such a path could
+			// match another request with the same key.
+			r = &route{code: 0, path: path, ipFilters: consulted}
+			if len(path.headers) == 0 && !headerMismatch {
+				mi.putRouteToCache(req, r)
+			}
+
+			if !allowed {
 				return forbidden
 			}
 
-			return &route{code: 0, path: path}
+			return r
 		}
 	}
 
@@ -596,11 +617,11 @@ func (mi *muxInstance) search(req *httpprot.Request) *route {
 	}
 
 	if methodMismatch {
-		mi.putRouteToCache(req, methodNotAllowed)
+		mi.putRouteToCache(req, &route{code: methodNotAllowed.code, ipFilters: consulted})
 		return methodNotAllowed
 	}
 
-	mi.putRouteToCache(req, notFound)
+	mi.putRouteToCache(req, &route{code: notFound.code, ipFilters: consulted})
 	return notFound
 }
 
